@@ -152,7 +152,13 @@ fn verdict_only<T>(f: impl FnOnce() -> anyhow::Result<T>) -> V {
 fn lookups(rt: &tokio::runtime::Runtime, reader: &dyn versatiles_core::types::TilesReaderTrait, probes: &str) -> V {
 	use versatiles_core::types::TileCoord3;
 	let mut worst = V::Ok;
-	for (z, x, y) in parse_probes(probes) {
+	// a SEQUENCE of lookups on the one opened reader (the readers keep caches: versatiles block tile
+	// indexes, PMTiles leaf directories): the first coordinate three times in a row, then every probe
+	// (neighbours in the same block, other blocks, other levels), then all of them once more – after
+	// errors as well as after successes; every single call must end with a value or an error
+	let ps = parse_probes(probes);
+	let seq: Vec<Coord> = ps.iter().take(1).cycle().take(if ps.is_empty() { 0 } else { 2 }).chain(ps.iter()).chain(ps.iter()).copied().collect();
+	for (z, x, y) in seq {
 		let v = verdict_only(|| {
 			let c = TileCoord3::new(x, y, z)?;
 			rt.block_on(reader.get_tile_data(&c))
@@ -586,7 +592,7 @@ pub fn run(args: &Args) {
 		"every decoding entry point with an error channel ({}) is fed random bytes and, mostly, mutations of VALID encodings produced by the real writers and the independent encoders \
 (bit flips, byte replacement, truncation, deletion, duplication, splices of two valid encodings, length fields set to 2^31/2^32/2^63/2^64-1 and neighbours, multi-byte UTF-8 placed at every \
 alignment relative to error sites, JSON/VPL nesting to 512 quick / 5000 thorough, self-referential PMTiles leaf directories, semantic corruption of SQLite rows, odd tar member names); \
-each case runs in a child process (RLIMIT_AS 4 GiB, 10 s watchdog) under catch_unwind with a counting global allocator. Oracle: verdict is ok or err (never panic, abort, SIGSEGV, timeout) and the \
+container cases perform a sequence of single-tile lookups on one opened reader (first coordinate three times, all probes, all probes again: cache-hit paths after errors and successes); each case runs in a child process (RLIMIT_AS 4 GiB, 10 s watchdog) under catch_unwind with a counting global allocator. Oracle: verdict is ok or err (never panic, abort, SIGSEGV, timeout) and the \
 largest single allocation request is <= {}*|input| + 24 MiB. Entry points with a Lean model (json, csv, mvt, pbfstr, pmdir, pmfind, pmhdr, vtblk, vtbidx, vttidx, vthdr, vpl; input <= 4 KiB) are also compared with the model's verdict. \
 non-trivial = derived from a valid encoding or structured generator (everything except class 'random'); distinct by case text",
 		ALL_EPS.join(", "),
